@@ -302,13 +302,9 @@ def probe_step_source(st, consts):
     return '\n'.join(out) + '\n'
 
 
-def probe_integrator_source(steppers):
+def probe_integrator_source(meths):
     """An Integrator whose one_timestep calls every stage that some stepper
     has (initialize first), the way the shipped integrators do."""
-    meths = set()
-    for st in steppers.values():
-        meths.update(m for m in dir(st)
-                     if m == 'initialize' or re.match(r'stage\d+$', m))
     out = ['class ProbeIntegrator(Integrator):',
            '    def one_timestep(self, t, dt):']
     if 'initialize' in meths:
@@ -324,6 +320,11 @@ def probe_integrator_source(steppers):
     return '\n'.join(out) + '\n'
 
 
+def stage_methods(obj):
+    return [m for m in dir(obj)
+            if m == 'initialize' or re.match(r'stage\d+$', m)]
+
+
 def make_eq(cls, dest, sources, kw):
     kw = dict(kw)
     if kw.pop('__nosources__', False):
@@ -337,7 +338,8 @@ def load_class(spec):
 
 
 def build_objects(case, workdir):
-    """-> (equation objects in written order, {array: stepper object})."""
+    """-> (equation objects in written order, {array: stepper object},
+    integrator class or None)."""
     consts = set()
     for a in case['arrays']:
         consts.update(a.get('consts', ()))
@@ -345,27 +347,32 @@ def build_objects(case, workdir):
            'from pysph.sph.integrator import Integrator',
            'from pysph.sph.integrator_step import IntegratorStep', '']
     seen = set()
+    meths = set()
     for e in case['eqs']:
         if 'cls' not in e and e['name'] not in seen:
             seen.add(e['name'])
             src.append(probe_eq_source(e, consts))
     for st in case['steppers']:
-        if 'cls' not in st and st['name'] not in seen:
-            seen.add(st['name'])
-            src.append(probe_step_source(st, consts))
+        if 'cls' in st:
+            meths.update(stage_methods(load_class(st['cls'])))
+        else:
+            meths.update(me['m'] for me in st.get('meths') or
+                         [dict(m='stage1')])
+            if st['name'] not in seen:
+                seen.add(st['name'])
+                src.append(probe_step_source(st, consts))
+    if case['steppers']:
+        src.append(probe_integrator_source(meths))
     name = 'c20probe_%d_%d' % (os.getpid(), build_objects.n)
     build_objects.n += 1
     path = os.path.join(workdir, name + '.py')
-
-    def load(text):
-        with open(path, 'w') as fp:
-            fp.write(text)
-        spec = importlib.util.spec_from_file_location(name, path)
-        mod = importlib.util.module_from_spec(spec)
-        sys.modules[name] = mod
-        spec.loader.exec_module(mod)
-        return mod
-    mod = load('\n'.join(src)) if seen else None
+    build_objects.files.append(path)
+    with open(path, 'w') as fp:
+        fp.write('\n'.join(src))
+    spec = importlib.util.spec_from_file_location(name, path)
+    mod = importlib.util.module_from_spec(spec)
+    sys.modules[name] = mod
+    spec.loader.exec_module(mod)
     eqs = []
     for e in case['eqs']:
         sources = list(e['sources']) or None
@@ -380,18 +387,11 @@ def build_objects(case, workdir):
         cls = load_class(st['cls']) if 'cls' in st else getattr(mod,
                                                                 st['name'])
         steppers[st['array']] = cls()
-    icls = None
-    if steppers:
-        # (the module is written again, now with the integrator that calls
-        # the stages these steppers have; the classes keep their source)
-        src.append(probe_integrator_source(steppers))
-        name = name + 'i'
-        path = os.path.join(workdir, name + '.py')
-        icls = load('\n'.join(src)).ProbeIntegrator
-    return eqs, steppers, icls
+    return eqs, steppers, getattr(mod, 'ProbeIntegrator', None)
 
 
 build_objects.n = 0
+build_objects.files = []
 
 
 def wrap(eqs, structure):
@@ -439,17 +439,48 @@ def rejected(stage, ex):
                 msg=msg[:600], tokens=tokens_of(msg), ran='')
 
 
-def run_chain(case, workdir):
+def mutate_arrays(pas, case):
+    """The same ParticleArray objects, changed into the arrays of `case`
+    (properties / constants removed or added)."""
+    by = dict((pa.name, pa) for pa in pas)
+    out = []
+    for a in case['arrays']:
+        pa = by[a['name']]
+        want = set(a['props'])
+        for n in sorted((set(pa.properties) | set(pa.constants)) - want):
+            if n in pa.constants:
+                pa.constants.pop(n)
+            else:
+                pa.remove_property(n)
+        for n in sorted(want - set(pa.properties) - set(pa.constants)):
+            if n in a.get('consts', ()):
+                pa.add_constant(n, [1.0])
+            else:
+                pa.add_property(n)
+        have = set(pa.properties.keys()) | set(pa.constants.keys())
+        if have != want:
+            raise RuntimeError('harness: array %s has %s, case says %s' % (
+                a['name'], sorted(have), sorted(want)))
+        out.append(pa)
+    return out
+
+
+def run_chain(case, workdir, pas=None, objs=None):
+    """One build.  -> (out, arrays, (equation objects, stepper objects,
+    integrator class)) - the last two for the next build of a history."""
     from pysph.sph.equation import MultiStageEquations
     from pysph.sph.acceleration_eval import (AccelerationEval,
                                              make_acceleration_evals)
     from pysph.sph.sph_compiler import SPHCompiler
-    from pysph.sph.integrator import EulerIntegrator
-    pas = build_arrays(case)
-    eqs, steppers = build_objects(case, workdir)
+    if pas is None:
+        pas = build_arrays(case)
+    if objs is None:
+        objs = build_objects(case, workdir)
+    eqs, steppers, icls = objs
     program = wrap(eqs, case['structure'])
     kernel = CubicSpline(dim=1)
-    integ = EulerIntegrator(**steppers) if steppers else None
+    integ = icls(**steppers) if steppers else None
+    acc = dict(k='accepted', stage='', etype='', msg='', tokens=[], ran='')
     if case['api'] == 'evaluator':
         import pysph.tools.sph_evaluator as se
 
@@ -464,9 +495,8 @@ def run_chain(case, workdir):
         except Reached:
             pass
         except Exception as ex:
-            return rejected('evaluator', ex)
-        return dict(k='accepted', stage='', etype='', msg='', tokens=[],
-                    ran='')
+            return rejected('evaluator', ex), pas, objs
+        return acc, pas, objs
     stage = 'aeval'
     try:
         if isinstance(program, MultiStageEquations):
@@ -478,8 +508,7 @@ def run_chain(case, workdir):
         stage = 'codegen'
         codegen(comp)
     except Exception as ex:
-        return rejected(stage, ex)
-    ran = ''
+        return rejected(stage, ex), pas, objs
     if case.get('execute'):
         # complete problems only (chosen by the check): compile and run once
         from pysph.base.nnps import LinkedListNNPS
@@ -493,8 +522,27 @@ def run_chain(case, workdir):
             ev.compute(0.0, 0.125)
         if integ is not None:
             integ.step(0.0, 0.125)
-        ran = 'ok'
-    return dict(k='accepted', stage='', etype='', msg='', tokens=[], ran=ran)
+        acc['ran'] = 'ok'
+    return acc, pas, objs
+
+
+def run_case(case, workdir):
+    """-> out, or for a history (`builds`: the problems built one after the
+    other in this process; `reuse`: from the same equation and stepper
+    objects; `mutate`: and the same array objects) the list of outs."""
+    if 'builds' not in case:
+        return run_chain(case, workdir)[0]
+    outs = []
+    pas = objs = None
+    for b in case['builds']:
+        if pas is not None and case['mutate']:
+            pas = mutate_arrays(pas, b)
+        else:
+            pas = None
+        out, pas, objs = run_chain(b, workdir, pas,
+                                   objs if case['reuse'] else None)
+        outs.append(out)
+    return outs
 
 
 def run_in_child(case, workdir):
@@ -512,7 +560,7 @@ def run_in_child(case, workdir):
             os.dup2(null, 1)
             os.dup2(null, 2)
             try:
-                out = run_chain(case, workdir)
+                out = run_case(case, workdir)
             except BaseException:
                 out = dict(k='harness-error', stage='', etype='',
                            msg=traceback.format_exc()[-1500:], tokens=[],
@@ -521,11 +569,11 @@ def run_in_child(case, workdir):
         except BaseException:
             code = 3
         finally:
-            try:
-                os.unlink(os.path.join(workdir,
-                                       'c20probe_%d.py' % os.getpid()))
-            except OSError:
-                pass
+            for f in build_objects.files:
+                try:
+                    os.unlink(f)
+                except OSError:
+                    pass
             os._exit(code)
     os.close(w)
     chunks = []
@@ -596,7 +644,8 @@ def main_run(inp, outp):
     import pysph.base.nnps                  # noqa: F401
     cache_templates()
     cases = [json.loads(line) for line in open(inp)]
-    if any('cls' in e for c in cases for e in c['eqs'] + c['steppers']):
+    if any('cls' in e for c in cases for b in c.get('builds', [c])
+           for e in b['eqs'] + b['steppers']):
         preload()
     tab = real_symtab()
     with open(outp, 'w') as fo:
@@ -608,7 +657,10 @@ def main_run(inp, outp):
         fo.flush()
         for case in cases:
             tr = dict(case)
-            tr['out'] = run_in_child(case, workdir)
+            out = run_in_child(case, workdir)
+            if 'builds' in case and isinstance(out, dict):
+                out = [out] * len(case['builds'])  # (crash: no build returned)
+            tr['outs' if 'builds' in case else 'out'] = out
             fo.write(json.dumps(tr) + '\n')
             fo.flush()
 
@@ -649,21 +701,39 @@ def array_names(obj, methods):
     return d, s
 
 
-def pick(names, first, cap):
-    """At most cap of the names: those of `first` (needed only through a
-    symbol) alternate with the others."""
+def pick(names, groups, cap):
+    """The names to remove in turn (cap 0: all).  `groups`: the origins of
+    the needs - one set of names per method of the class, one for the names
+    needed only through a symbol.  Every origin is covered by a name of its
+    own where it has one (else by any of its names), whatever the cap; then
+    up to cap names in all."""
     names = sorted(names)
-    if not cap or len(names) <= cap:
+    if not cap:
         return names
-    a = [n for n in names if n in first]
-    b = [n for n in names if n not in first]
+    groups = [sorted(set(g) & set(names)) for g in groups]
+    groups = [g for g in groups if g]
     out = []
-    while len(out) < cap and (a or b):
-        if a:
-            out.append(a.pop(0))
-        if b and len(out) < cap:
-            out.append(b.pop(len(b) // 2))
+    for g in groups:
+        own = [n for n in g if sum(n in h for h in groups) == 1]
+        cand = [n for n in own + g if n not in out]
+        if cand and not set(own or g) & set(out):
+            out.append(cand[0])
+    rest = [n for n in names if n not in out]
+    while len(out) < cap and rest:
+        out.append(rest.pop(len(rest) // 2))
     return sorted(out)
+
+
+def bystander(arrays, i, names):
+    """Every third case as it is; in the others the problem has one more
+    array, pa_o, that nothing is applied to and that owns every name the
+    other arrays are asked for as a CONSTANT, listed first or last."""
+    if i % 3 == 2:
+        return arrays
+    full = set(names) - set(DEFAULTS)
+    o = dict(name='pa_o', props=sorted(full | set(DEFAULTS)),
+             consts=sorted(full))
+    return [o] + arrays if i % 3 == 0 else arrays + [o]
 
 
 def main_discover(outp, cap):
@@ -706,6 +776,7 @@ def main_discover(outp, cap):
             continue
         ninst += 1
         d, s = array_names(obj, EQ_METHODS)
+        per = [array_names(obj, [m]) for m in EQ_METHODS]
         syms = set()
         if hasattr(obj, 'loop'):
             syms = set(a for a in inspect.getfullargspec(obj.loop).args
@@ -727,11 +798,14 @@ def main_discover(outp, cap):
                     props.discard(removed[1])
                 arrays.append(dict(name=a, props=sorted(props), consts=[]))
             return dict(type='case', leg='shipped-eq', cls=key, api='compiler',
-                        structure=structures[k % 4], arrays=arrays,
+                        structure=structures[k % 4],
+                        arrays=bystander(arrays, len(cases),
+                                         need['pa_d'] | need['pa_s1']),
                         eqs=[eq], steppers=[], removed=list(removed or ()))
         cases.append(mk(None))
-        for a in ('pa_d', 'pa_s1'):
-            for n in pick(need[a], need[a] - expl[a], cap):
+        for a, j in (('pa_d', 0), ('pa_s1', 1)):
+            groups = [p[j] for p in per] + [need[a] - expl[a]]
+            for n in pick(need[a], groups, cap):
                 cases.append(mk((a, n)))
     nst = 0
     for key in sorted(stc):
@@ -743,27 +817,31 @@ def main_discover(outp, cap):
                 type(ex).__name__, str(ex)[:100])])
             continue
         nst += 1
-        meths = [m for m in dir(obj)
-                 if m == 'initialize' or (m.startswith('stage'))]
+        meths = stage_methods(obj)
         d, s = array_names(obj, meths)
         d |= s                     # a stepper's s_ names denote its own array
+        per = [set().union(*array_names(obj, [m])) for m in meths]
         probe = dict(name='ProbeB', dest='pa_d', sources=[], d=['m'], s=[],
                      syms=[], meth='initialize')
         st = dict(array='pa_d', name=cls.__name__, d=sorted(d), cls=key)
 
-        def mks(removed):
+        def mks(removed, i):
             props = set(d) | {'m'} | set(DEFAULTS)
             if removed:
                 props.discard(removed[1])
             return dict(type='case', leg='shipped-stepper', cls=key,
                         api='compiler', structure='flat',
-                        arrays=[dict(name='pa_d', props=sorted(props),
-                                     consts=[])],
+                        arrays=bystander([dict(name='pa_d',
+                                               props=sorted(props),
+                                               consts=[])], i,
+                                         d | {'m'}),
                         eqs=[probe], steppers=[st],
                         removed=list(removed or ()))
-        cases.append(mks(None))
-        for n in pick(d, set(), cap):
-            cases.append(mks(('pa_d', n)))
+        cases.append(mks(None, len(cases)))
+        for n in pick(d, per, cap):
+            # (alone, and with another array that owns the name)
+            cases.append(mks(('pa_d', n), 2))
+            cases.append(mks(('pa_d', n), len(cases) % 2))
     with open(outp, 'w') as fo:
         fo.write(json.dumps(dict(
             type='discover', equation_classes=len(eqc), instantiated=ninst,
